@@ -286,17 +286,17 @@ func C02Request(w *sim.World, in *Info) (vs []V, nValidation int) {
 		}
 		nValidation++
 		// other fields must be the client's
+		// (a client that sends conditionals of its own is a debatable area:
+		// the conditional fields are left out of the comparison)
 		got := c.Header.Clone()
-		if addedINM {
-			got.Del("If-None-Match")
-		}
-		if addedIMS {
-			got.Del("If-Modified-Since")
-		}
+		got.Del("If-None-Match")
+		got.Del("If-Modified-Since")
 		want := http.Header{}
 		for k, v := range cli {
 			want[http.CanonicalHeaderKey(k)] = append(want[http.CanonicalHeaderKey(k)], v...)
 		}
+		want.Del("If-None-Match")
+		want.Del("If-Modified-Since")
 		if d := sim.HeaderDiff(want, got); d != "" {
 			vs = append(vs, V{"C02", "validation-request", "other-fields-differ", "validation request is not the client's request plus validators: " + d + "; " + ex.Summary()})
 		}
